@@ -41,7 +41,12 @@ def generate(rng, n, tier):
                 ar = rng.choice([x for x in (1, 2, 3) if x != base_ar])
             tbl = rng.choice(["t", "u", "v"])
             where = rng.choice([None, [rng.choice(["a", "b"]), rng.choice(["<", ">", "==", "!="]), rng.randint(0, 4)]])
-            ops.append({"tbl": tbl, "arity": ar, "where": where, "distinct": rng.random() < 0.2})
+            op = {"tbl": tbl, "arity": ar, "where": where, "distinct": rng.random() < 0.2}
+            if rng.random() < 0.08:
+                # `SELECT *`: ONE select term as far as the documented arity check is concerned
+                op["star"] = True
+                op["arity"] = 1
+            ops.append(op)
         allowed = list(SQLITE_OK) if cls == "sqlite" else list(METHODS)
         meths = [rng.choice(allowed) for _ in range(k - 1)]
         yield {"cls": cls, "ops": ops, "meths": meths, "orderby": rng.random() < 0.4, "limit": rng.choice([None, None, 0, 2, 5]),
@@ -53,7 +58,7 @@ def generate(rng, n, tier):
 
 def operand_src(cls, op, wrapkw=""):
     qn = QNAMES[cls]
-    cols = ", ".join("T('%s').%s" % (op["tbl"], c) for c in ["a", "b", "c"][:op["arity"]])
+    cols = "'*'" if op.get("star") else ", ".join("T('%s').%s" % (op["tbl"], c) for c in ["a", "b", "c"][:op["arity"]])
     s = "%s.from_(T('%s')%s).select(%s)" % (qn, op["tbl"], wrapkw, cols)
     if op["where"]:
         c, o, v = op["where"]
@@ -186,7 +191,8 @@ def examine(case):
     if use in ("from", "in") and "(" + ctext + ")" not in text:
         F("nested-use", "the chain is not parenthesised as a whole when used as %s: %s" % (use, text))
     # --- SQLite: rows of the left-to-right set expression
-    if cls == "sqlite" and use == "top" and not (case.get("offset") and case.get("limit") is None):
+    if cls == "sqlite" and use == "top" and not (case.get("offset") and case.get("limit") is None) and \
+            not any(o.get("star") for o in case["ops"]):
         try:
             got = db().execute(ctext).fetchall()
         except sqlite3.Error as e:
